@@ -37,10 +37,17 @@ LINES = [b"keep;", b"OK", b'OK "done"', b'NO "x"', b"NO", b"BYE", b"{5}", b"{5+}
          b"# \xc3\xa9\xc3\xa8\xe2\x82\xac", b"if true {", b"}", b'  fileinto "a";', b"x" * 80,
          b"\xe6\x97\xa5\xe6\x9c\xac", b"OK (WARNINGS) \"w\"", b"{3}abc", b"tab\there",
          b"# form\x0cfeed", b"vt\x0bhere", b"fs\x1cgs\x1drs\x1e", b"nel\xc2\x85here",
-         b"ls\xe2\x80\xa8ps\xe2\x80\xa9end"]
+         b"ls\xe2\x80\xa8ps\xe2\x80\xa9end",
+         # what codecs and str methods treat specially at the edge of a line: byte-order
+         # mark / zero-width no-break space first, zero-width space, NBSP, blanks at both ends
+         "\ufeffkeep;".encode(), "\ufeff".encode(), "\ufeff\ufeff# bom twice".encode(),
+         "\u200bzero width first".encode(), "\u00a0nbsp first and last\u00a0".encode(),
+         b"  two blanks first and last  ", b"\ttab first", b"\x1c fs first", "\u2028".encode(),
+         "\u3000ideographic space".encode()]
 NAMES = [b"main", b"x y", b'q"q', b"{5}", b"{5+}", b"OK", b"NO", b"BYE", b"ACTIVE",
          b"x ACTIVE", b'"a" ACTIVE', b"\xc3\xa9t\xc3\xa9", b"a\\b", b"a\\", b'"', b'""',
-         b"vac\xc3\xa0tion", b"script.sieve", b"l'apostrophe", b"(paren)", b"a" * 100]
+         b"vac\xc3\xa0tion", b"script.sieve", b"l'apostrophe", b"(paren)", b"a" * 100,
+         "\ufeffbom".encode(), "nb\u00a0sp".encode(), b" lead and trail ", "z\u200bw".encode()]
 
 
 def plan(tier, seed):
@@ -135,9 +142,14 @@ def run_bodies(shard, res: Result):
                 res.sample({"op": "getscript", "stored": body, "encoding": how}, 2)
 
 
+LISTS = [0]
+
+
 def list_once(names, active, how, seg=None, debug=None):
     srv = ms.Server(users={b"user": b"pw"}, scripts={n: b"keep;\r\n" for n in names},
                     active=active, encodings=how)
+    LISTS[0] += 1
+    srv.active_marker = (b"ACTIVE", b"active", b"ACTIVE", b"Active")[LISTS[0] % 4]
     sess, r = mslab.authed_session(srv, seg, debug=debug)
     out = sess.call("listscripts")
     want_active = active.decode("utf-8") if active else None
